@@ -1143,3 +1143,42 @@ def char_pred(I, c):
     if m == 'is_ascii_lowercase':
         return ch.isascii() and ch.islower()
     return ch.isascii() and ch.isupper()
+
+
+@model_re(r'^(core::str::|std::str::)(splitn|split)$')
+def str_splitn(I, c):
+    s = _s(c.args[0])
+    if c.method == 'splitn':
+        n, pat = c.args[1], _s(c.args[2])
+    else:
+        n, pat = None, _s(c.args[1])
+    if not isinstance(s, str) or not isinstance(pat, str):
+        raise Unsupported('split on symbolic string')
+    parts = s.split(pat, n - 1) if n is not None else s.split(pat)
+    if n == 0:
+        parts = []
+    return VecIntoIter(parts)
+
+
+@model_re(r'as Iterator>::nth$')
+def it_nth(I, c):
+    it = _it(c)
+    n = c.args[1]
+    if not is_conc(n):
+        raise Unsupported('symbolic nth')
+    v = STOP
+    for _ in range(n + 1):
+        v = it.next(I)
+        if v is STOP:
+            return NONE()
+    return Some(v)
+
+
+@model_re(r'^(core::str::|std::str::)(trim|to_lowercase|to_uppercase|to_string|to_owned)$')
+def str_simple(I, c):
+    s = _s(c.args[0])
+    if c.method in ('to_string', 'to_owned'):
+        return s
+    if not isinstance(s, str):
+        raise Unsupported(c.method + ' on symbolic string')
+    return {'trim': s.strip, 'to_lowercase': s.lower, 'to_uppercase': s.upper}[c.method]()
